@@ -126,7 +126,10 @@ def gen_case(rng, i):
     # couples the rows of a batch - C05 known finding - and is kept at its default of one)
     bs = [1, 1, 2, "full"][rng.integers(4)] if model == "poisson" else 1
     s["registered"] = bool(rng.integers(5) == 0)      # register_targets(B); fit(model=...)  -> est.X, est.B
-    s.update({"B": np.array(T), "classes": cls, "model": model, "wkind": wk, "bs": bs,
+    T = np.array(T)
+    if i % 7 == 3:
+        T = np.round(T)      # photon counts: integer-valued targets (handed over as int64); class labels become approximate
+    s.update({"B": T, "classes": cls, "model": model, "wkind": wk, "bs": bs,
               "W": rng.uniform(0.3, 3, m) if wk == "receptor" else None})
     return s
 
